@@ -413,7 +413,7 @@ func TestVerif_C03_damage(t *testing.T) {
 		}
 		return
 	}
-	verifkit.RapidSetup(900, 60000)
+	verifkit.RapidSetup(900, 30000)
 	rapid.Check(t, func(rt *rapid.T) {
 		c := c03Case{Cmds: c03GenCmds(rt), Reset: rapid.IntRange(0, 2).Draw(rt, "compacted-log") == 0}
 		orig, ext := c03Build(c.Cmds, c.Reset)
@@ -468,7 +468,7 @@ func TestVerif_C03_damageenum(t *testing.T) {
 		}
 		return
 	}
-	verifkit.RapidSetup(8, 400)
+	verifkit.RapidSetup(8, 250)
 	variants := 0
 	rapid.Check(t, func(rt *rapid.T) {
 		cmds := c03GenCmds(rt)
